@@ -19,7 +19,7 @@ from ..twin import TwinExec, diff_states, observable_state
 
 TARGETS = ["commit", "amend", "rebase", "rebase_continue", "cherry_pick", "reset_soft", "reset_hard",
            "stash_push", "stash_pop", "squash", "checkout_b", "switch", "commit_partial",
-           "push", "fetch", "pull_ff", "pull_rebase", "stash_pop_two", "cherry_pick_after_abort"]
+           "push", "fetch", "pull_ff", "pull_rebase", "stash_pop_two", "cherry_pick_after_abort", "commit_hunks"]
 GIT_KINDS = ["fail:128", "fail:1", "short:0", "short:half", "kill"]
 JOURNAL_KINDS = ["crash", "torn:half", "eio", "enospc"]
 CORRUPT_KINDS = ["truncate_half", "truncate_tail", "truncate_0", "flip_byte", "delete", "garbage", "dup_last_line", "dir",
@@ -57,6 +57,16 @@ def prefix_ops(g, target):
             f = rng.choice(g.worktree_files())
             yield g.git("add", "--", f)
             yield g.git("commit", "-q", "-m", g.msg(), target=True)
+    elif target == "commit_hunks":
+        # several AI / human insertion blocks in one file, some of them staged by hunk (git add -p): the commit that
+        # leaves unstaged insertions above committed AI lines is the target
+        for op in hist.fam_partial_blocks(g):
+            if op["op"] == "git" and op["argv"][0] == "commit":
+                op = dict(op, target=True)
+                op.pop("check", None)
+                yield op
+                return
+            yield op
     elif target == "amend":
         yield from g.some_edits(n_ai=(1, 2), n_human=(0, 1))
         yield from g.commit_all()
@@ -215,7 +225,7 @@ def corrupt(path, kind):
 class C07(Prop):
     id = "C07"
     level = "fault_enumeration"
-    quick_runs, thorough_runs = 57, 1900
+    quick_runs, thorough_runs = 60, 2000
     quick_budget_s, thorough_budget_s = 170, 1800
     rule = ("one task = one sampled scenario (prefix of edits/checkpoints/commits + one wrapped target command of a "
             "hooked kind: commit, partial commit, amend, rebase, rebase --continue after a conflict, cherry-pick, reset "
